@@ -308,6 +308,8 @@ def host_opaque_key(k):
 
 
 def getattr_(it, obj, name, node=None):
+    if hasattr(obj, 'py_getattr'):
+        return obj.py_getattr(it, name, node)
     if isinstance(obj, HostOpaque):
         if name == 'get':
             def get(it_, a, k, n):
@@ -450,6 +452,11 @@ def list_extend(it, lst, other):
         lst.set_items(lst.items + tuple((True, v) for v in it.iterate(other)))
 
 
+def contains_value(it, lst, x, node=None):
+    from .libops import contains
+    return contains(it, lst, x, node)
+
+
 def list_method(it, lst, name, node):
     def append(it_, args, kw, n):
         lst.append(args[0])
@@ -486,7 +493,30 @@ def list_method(it, lst, name, node):
 
     def copy(it_, args, kw, n):
         return PList(guarded=lst.items)
-    tbl = dict(append=append, extend=extend, insert=insert, pop=pop, clear=clear, index=index, copy=copy)
+    def add(it_, args, kw, n):
+        # set.add on the list model of a set: present at most once
+        c = contains_value(it, lst, args[0], n)
+        if c is True:
+            return
+        if c is False:
+            lst.append(args[0])
+            return
+        lst.set_items(lst.items + ((z3.simplify(z3.Not(c)), args[0]),))
+
+    def discard(it_, args, kw, n):
+        out = []
+        for g, v in lst.items:
+            e = values_equal(it, v, args[0], n)
+            if e is True:
+                continue
+            if e is False:
+                out.append((g, v))
+            else:
+                gz = z3.BoolVal(True) if g is True else g
+                out.append((z3.simplify(z3.And(gz, z3.Not(e))), v))
+        lst.set_items(out)
+    tbl = dict(append=append, extend=extend, insert=insert, pop=pop, clear=clear, index=index, copy=copy, add=add,
+               discard=discard, remove=discard)
     if name not in tbl:
         if name == 'append' or True:
             pass
@@ -847,6 +877,8 @@ def select_by_index(it, items, i, node, what='list-index'):
 
 
 def getitem(it, obj, key, node=None):
+    if hasattr(obj, 'py_getitem'):
+        return obj.py_getitem(it, key, node)
     if isinstance(obj, HostOpaque):
         kt = host_opaque_key(key)
         it.raise_if(z3.Not(_host_fn(obj.name + '.dom', B)(kt)), 'KeyError', 'const-dict-key', node)
@@ -966,6 +998,8 @@ def getslice(it, obj, lo, hi, st, node=None):
 
 
 def setitem(it, obj, key, v, node=None):
+    if hasattr(obj, 'py_setitem'):
+        return obj.py_setitem(it, key, v, node)
     if isinstance(obj, PDict):
         if isinstance(key, (SInt, SStr, SEnum)):
             raise Unsupported('symbolic key stored into literal dict')
